@@ -17,7 +17,7 @@ pub fn run(op: &str, args: &[&str]) -> Option<String> {
     match (op, args) {
         ("txid", [h]) => {
             let b = unhex(h)?;
-            Some(match deserialize::<Transaction>(&b) {
+            Some(match crate::ops_codec::ds::<Transaction>(&b) {
                 Ok(tx) => format!("OK {} {}", show_hex(&tx.hash().0), show_hex(&tx.prefix.hash().0)),
                 Err(e) => crate::err_shown(&e),
             })
@@ -25,7 +25,7 @@ pub fn run(op: &str, args: &[&str]) -> Option<String> {
         ("txparts", [h]) => {
             // boundaries: p = bytes of the prefix, q = p + bytes of the RingCT base, and the RingCT type (or -)
             let b = unhex(h)?;
-            Some(match deserialize::<Transaction>(&b) {
+            Some(match crate::ops_codec::ds::<Transaction>(&b) {
                 Ok(tx) => {
                     let p = monero::consensus::encode::serialize(&tx.prefix).len();
                     match &tx.rct_signatures.sig {
@@ -50,11 +50,11 @@ pub fn run(op: &str, args: &[&str]) -> Option<String> {
                     Ok(k) => format!("OK {}", show_hex(&k.hash_to_scalar().to_bytes())),
                     Err(e) => crate::err_shown(&e),
                 },
-                "tx" => match deserialize::<Transaction>(&b) {
+                "tx" => match crate::ops_codec::ds::<Transaction>(&b) {
                     Ok(x) => format!("OK {}", show_hex(&x.hash_to_scalar().to_bytes())),
                     Err(e) => crate::err_shown(&e),
                 },
-                "prefix" => match deserialize::<monero::TransactionPrefix>(&b) {
+                "prefix" => match crate::ops_codec::ds::<monero::TransactionPrefix>(&b) {
                     Ok(x) => format!("OK {}", show_hex(&x.hash_to_scalar().to_bytes())),
                     Err(e) => crate::err_shown(&e),
                 },
@@ -63,7 +63,7 @@ pub fn run(op: &str, args: &[&str]) -> Option<String> {
         }
         ("blockfull", [h]) => {
             let b = unhex(h)?;
-            Some(match deserialize::<monero::Block>(&b) {
+            Some(match crate::ops_codec::ds::<monero::Block>(&b) {
                 Ok(blk) => format!(
                     "OK {} {} {}",
                     show_hex(&blk.tx_root().0),
